@@ -176,17 +176,36 @@ Qed.
 Lemma bind_ok {A} (x : res A) : bind x (fun a => Ok a) = x.
 Proof. destruct x; reflexivity. Qed.
 
+(* ------------------------------------------------------------------ the decorator _takes_ascii *)
+
+Lemma existsb_ge128 l : existsb (fun b => 128 <=? b) l = negb (all_ascii l).
+Proof.
+  unfold all_ascii. induction l as [|c l IH]; [reflexivity|]. cbn [existsb forallb]. rewrite IH.
+  destruct (128 <=? c) eqn:E1, (c <? 128) eqn:E2; contra; reflexivity.
+Qed.
+
+(* str, bytes, and streams of either: after the decorator only the characters matter *)
+Theorem gen_takes_ascii_eq {A} (i : pyin) (f : list Z -> res A) :
+  gen_takes_ascii i f = takes_ascii (codes i) f.
+Proof.
+  unfold gen_takes_ascii, takes_ascii, codes. destruct (read_in i) as [l|l].
+  - unfold encode_ascii. destruct (all_ascii l); reflexivity.
+  - rewrite existsb_ge128. destruct (all_ascii l); reflexivity.
+Qed.
+
 (* ------------------------------------------------------------------ public entry points (dates, offsets) *)
 
-Theorem gen_parse_tzstr_eq s z : gen_parse_tzstr s z = parse_tzstr s z.
+Theorem gen_parse_tzstr_eq i z : gen_parse_tzstr i z = parse_tzstr (codes i) z.
 Proof.
-  unfold gen_parse_tzstr, parse_tzstr, takes_ascii. destruct (all_ascii s); [|reflexivity].
+  unfold gen_parse_tzstr. rewrite gen_takes_ascii_eq. generalize (codes i) as s. intros s.
+  unfold parse_tzstr, takes_ascii. destruct (all_ascii s); [|reflexivity].
   rewrite gen_parse_tzstr_raw_eq. apply bind_ok.
 Qed.
 
-Theorem gen_parse_isodate_eq s : gen_parse_isodate s = parse_isodate s.
+Theorem gen_parse_isodate_eq i : gen_parse_isodate i = parse_isodate (codes i).
 Proof.
-  unfold gen_parse_isodate, parse_isodate, takes_ascii. destruct (all_ascii s); [|reflexivity].
+  unfold gen_parse_isodate. rewrite gen_takes_ascii_eq. generalize (codes i) as s. intros s.
+  unfold parse_isodate, takes_ascii. destruct (all_ascii s); [|reflexivity].
   rewrite gen_parse_isodate_raw_eq.
   destruct (parse_isodate_raw s) as [[[[y m] d] p]|e]; cbn [pmap bind]; [|reflexivity].
   destruct (Z.of_nat p <? zlen s) eqn:E1, (p <? length s)%nat eqn:E2; contra; try reflexivity.
@@ -304,9 +323,10 @@ Proof.
   - injection G as ->. reflexivity.
 Qed.
 
-Theorem gen_parse_isotime_eq s : gen_parse_isotime s = parse_isotime s.
+Theorem gen_parse_isotime_eq i : gen_parse_isotime i = parse_isotime (codes i).
 Proof.
-  unfold gen_parse_isotime, parse_isotime, takes_ascii. destruct (all_ascii s); [|reflexivity].
+  unfold gen_parse_isotime. rewrite gen_takes_ascii_eq. generalize (codes i) as s. intros s.
+  unfold parse_isotime, takes_ascii. destruct (all_ascii s); [|reflexivity].
   rewrite gen_parse_isotime_raw_eq.
   destruct (parse_isotime_raw s) as [[[[[h m] sec] us] tz]|e]; cbn [bind]; [|reflexivity].
   destruct (h =? 24); apply bind_ok.
@@ -316,9 +336,10 @@ Qed.
 
 Definition sep_bytes (sep : option Z) : option (list Z) := option_map (fun c => [c]) sep.
 
-Theorem gen_isoparse_eq sep s : gen_isoparse (sep_bytes sep) s = isoparse sep s.
+Theorem gen_isoparse_eq sep i : gen_isoparse (sep_bytes sep) i = isoparse sep (codes i).
 Proof.
-  unfold gen_isoparse, isoparse, takes_ascii. destruct (all_ascii s); [|reflexivity].
+  unfold gen_isoparse. rewrite gen_takes_ascii_eq. generalize (codes i) as s. intros s.
+  unfold isoparse, takes_ascii. destruct (all_ascii s); [|reflexivity].
   rewrite gen_parse_isodate_raw_eq.
   destruct (parse_isodate_raw s) as [[[[y m] d] p]|e]; cbn [pmap bind]; [|reflexivity].
   rewrite Z.gtb_ltb.
@@ -338,3 +359,20 @@ Proof.
     + destruct e; reflexivity.
   - apply bind_ok.
 Qed.
+
+(* ------------------------------------------------------------------ input kinds *)
+
+(* "str, bytes and stream inputs are equivalent": the result of every entry point depends only on the
+   characters of the input, not on its kind (any configured separator, any flag) *)
+Theorem gen_input_kinds sep i j z : codes i = codes j ->
+  gen_isoparse sep i = gen_isoparse sep j /\ gen_parse_isodate i = gen_parse_isodate j /\
+  gen_parse_isotime i = gen_parse_isotime j /\ gen_parse_tzstr i z = gen_parse_tzstr j z.
+Proof.
+  intros E. unfold gen_isoparse, gen_parse_isodate, gen_parse_isotime, gen_parse_tzstr.
+  rewrite !gen_takes_ascii_eq, E. repeat split; reflexivity.
+Qed.
+
+Lemma codes_kinds l :
+  codes (InDirect (PText l)) = l /\ codes (InDirect (PBytes l)) = l /\
+  codes (InStream (PText l)) = l /\ codes (InStream (PBytes l)) = l.
+Proof. repeat split; reflexivity. Qed.
